@@ -346,6 +346,42 @@ def check_C04(ctx):
             else:
                 what = "Decode accepted the bytes but reports another value than they denote (or consumed a different number of bytes)"
             ctx.violation("decode", {"what": what, "case": short(cmd, 4000), "implementation": short(impl, 1500), "specification": short(model, 1500)})
+    # the independent oracle: Denote.v's splitter + schema matcher (spec_decode), extracted, on the same inputs
+    if rows and facts.get("ocaml_ok"):
+        d = os.path.join(core.WORK, "spec-%d" % os.getpid())
+        os.makedirs(d, exist_ok=True)
+        decs = [r for r in rows if r[1].startswith("dec ")]
+        with open(os.path.join(d, "spec.txt"), "w") as f:
+            for r in decs:
+                f.write("spec " + r[1][4:] + "\n")
+        run_model(os.path.join(d, "spec.txt"), os.path.join(d, "spec.out"))
+        outs = open(os.path.join(d, "spec.out"), errors="replace").read().split("\n")
+        import shutil
+        shutil.rmtree(d, ignore_errors=True)
+        acc = rej = sbad = mbad = 0
+        for i, (g, cmd, impl, model) in enumerate(decs):
+            spec = outs[i] if i < len(outs) else "spec-missing"
+            wi = first_word(impl)
+            if spec.startswith("ok"):
+                acc += 1
+            else:
+                rej += 1
+            # theorem C04_decoder_is_spec says model = spec; a difference here contradicts it (driver glue or a stale build)
+            if (model if first_word(model) == "ok" else "rej") != spec:
+                mbad += 1
+                if mbad <= 2:
+                    ctx.violation("theorem-contradicted", {"what": "the extracted decoder model and the extracted specification differ on an input although C04_decoder_is_spec is proved: glue or build problem",
+                                                           "case": short(cmd, 3000), "model": short(model, 800), "specification": short(spec, 800)}, found_input=False)
+            if wi in ("panic", "hang"):
+                continue
+            if (impl if wi == "ok" else "rej") != spec:
+                sbad += 1
+                if sbad <= 5 and not bad:
+                    what = ("Decode accepted bytes the specification rejects" if wi == "ok" and spec == "rej" else
+                            "Decode rejected bytes that are a valid encoding according to the specification" if wi != "ok" else
+                            "Decode accepted the bytes but reports another value than they denote (or consumed a different number of bytes)")
+                    ctx.violation("spec", {"what": what, "case": short(cmd, 4000), "implementation": short(impl, 1500), "specification": short(spec, 1500)})
+        ctx.cov["spec_oracle"] = {"inputs": len(decs), "accepted_by_spec": acc, "rejected_by_spec": rej, "impl_vs_spec_differences": sbad, "model_vs_spec_differences": mbad}
     if rep:
         for v in rep["violations"]:
             if v["kind"] == "truncation-accepted":
